@@ -22,6 +22,9 @@ HARNESS = "c14"
 PROFILES = ["release", "checked"]
 P = G.P
 FINDING_TUPLE_IGNORE = "tuple-field-ignore-attr-no-effect"
+FINDING_RECURSIVE = "recursive-type-static-length-diverges"
+RECUR_EXPECTED = "OK 1 2 0 3"          # Recur::Node(Box::new(Recur::Leaf(3))): discriminant 1, prefix 2, [0, 3]
+RUN_TIMEOUT = {"quick": 300, "thorough": 1500}
 
 TRUSTED = [
     "Coq 8.16.1 kernel",
@@ -50,8 +53,10 @@ ASSUMPTIONS = [
     "C14_usize_conversions_agree)",
     "generic definitions are covered as their instances (a definition is a function from type arguments to shapes); "
     "bounds and where-clauses only decide whether an instance compiles",
-    "recursive derived types (enum T { A(u32), B(Box<T>) }) are outside the grammar: a `ty` is a finite tree.  For such a "
-    "type the generated static_length() calls itself without a base case (harness op `recur`, not part of this check)",
+    "recursive derived types are outside the Coq grammar (finite trees): `ty` is an inductive tree and static_length a "
+    "structural Fixpoint, so no theorem speaks about them.  KNOWN FINDING %s: for enum Recur { Leaf(u32), Node(Box<Recur>) } "
+    "the generated static_length() calls itself without a base case; a probe (harness op `recur`, own process, 10 s, both "
+    "profiles) observes the divergence on every run" % FINDING_RECURSIVE,
     "the Rust side covers a finite sample of definitions and instances; the theorems cover every shape",
     "KNOWN FINDING %s: #[bfield_codec(ignore)] on a tuple-struct field is accepted and not honoured; the model is faithful "
     "to that (STuple ignores the flag, theorem C14_tuple_ignore_refuted)" % FINDING_TUPLE_IGNORE,
@@ -342,8 +347,53 @@ def sha(path):
         return None
 
 
+def probe_recursive(ctx):
+    """Run `recur` (encode a value of a recursive derived enum) in a process of its own, 10 s, every profile.
+    Divergence (no result in time / abort) is the class of the known finding; a wrong result is a plain violation."""
+    import resource
+    import subprocess
+
+    def limits():
+        soft, hard = resource.getrlimit(resource.RLIMIT_STACK)
+        want = 8 << 20
+        resource.setrlimit(resource.RLIMIT_STACK, (want if hard == resource.RLIM_INFINITY else min(want, hard), hard))
+        resource.setrlimit(resource.RLIMIT_AS, (4 << 30, 4 << 30))
+
+    out, info = [], {}
+    diverged = []
+    for prof, exe in sorted(ctx["exes"].items()):
+        try:
+            pr = subprocess.run([exe], input=b"0 recur\n", stdout=subprocess.PIPE, stderr=subprocess.PIPE, timeout=10,
+                                preexec_fn=limits)
+            res = pr.stdout.decode("utf-8", "replace").strip()
+            err = [ln for ln in pr.stderr.decode("utf-8", "replace").splitlines() if ln.strip()]
+            if pr.returncode == 0 and res == "0 " + RECUR_EXPECTED:
+                info[prof] = "terminates with the expected encoding"
+            elif pr.returncode == 0 and res:
+                info[prof] = "terminates: " + res
+                out.append({"kind": "recursive-type-wrong-encoding", "case": "recur-probe", "profile": prof, "impl": res,
+                            "model": "0 " + RECUR_EXPECTED, "why": "encoding of a recursive derived type differs from the layout"})
+            else:
+                info[prof] = "aborted, exit status %d: %s" % (pr.returncode, err[-1][:120] if err else "")
+                diverged.append((prof, info[prof]))
+        except subprocess.TimeoutExpired:
+            info[prof] = "no result within 10 s (endless loop)"
+            diverged.append((prof, info[prof]))
+    if diverged:
+        hit = [f for f in ctx["kf"] if f[1] == FINDING_RECURSIVE]
+        if hit:
+            ctx["kf_hit"][FINDING_RECURSIVE] = [hit[0][2], len(diverged), "recur  (%s)" % "; ".join("%s: %s" % d for d in diverged)]
+        else:
+            out.append({"kind": "recursive-type-static-length-diverges", "case": "recur-probe", "profile": diverged[0][0],
+                        "impl": "; ".join("%s: %s" % d for d in diverged), "model": RECUR_EXPECTED,
+                        "why": "encode() of a value of a recursive derived type does not return: the generated "
+                               "static_length() calls itself without a base case (replay: echo '0 recur' | <harness c14>)"})
+    return out, info
+
+
 def extra_checks(ctx):
-    """the committed generated Rust file must be the one the generator writes; record which macro sources were compared"""
+    """the committed generated Rust file must be the one the generator writes; record which macro sources were compared;
+    probe the recursive derived type"""
     path = os.path.join(ctx["root"], "harness", "src", "bin", "c14_types.rs")
     before = open(path).read() if os.path.exists(path) else None
     D.write_rust()
@@ -371,4 +421,7 @@ def extra_checks(ctx):
     if len([1 for a, _, c in vers if c]) != 1:
         v.append({"kind": "lockfile", "detail": "expected exactly one registry version of bfieldcodec_derive in Cargo.lock, found %r" % (vers,),
                   "no_input": True})
+    pv, pinfo = probe_recursive(ctx)
+    v.extend(pv)
+    info["recursive_type_probe"] = pinfo
     return {"violations": v, "info": info}
